@@ -61,7 +61,7 @@ for input_config in args_configs:
 
     config_name, config_value = splited_input_config
 
-    if not hasattr(cfg, config_name):
+    if config_name not in cfg.config_names:
         raise ValueError(f"Unknown convig name '{config_name}'")
 
     setattr(cfg, config_name, config_value)
